@@ -338,6 +338,20 @@ struct Os2Info {
     max_cmap_codepoint: u32,
 }
 
+#[cfg(googlefonts_fontations_verif)]
+impl Plan {
+    /// Verification hook (H6): the (new glyph id, old glyph id) renumbering,
+    /// the number of output glyphs and the (code point, new glyph id) list
+    /// that every table subsetter applies.
+    pub fn verif_glyph_plan(&self) -> (&[(GlyphId, GlyphId)], usize, &[(u32, GlyphId)]) {
+        (
+            &self.new_to_old_gid_list,
+            self.num_output_glyphs,
+            &self.unicode_to_new_gid_list,
+        )
+    }
+}
+
 impl Plan {
     #[allow(clippy::too_many_arguments)]
     pub fn new(
